@@ -874,8 +874,18 @@ func polyToComplexNoCRT(coeffs []uint64, values FloatSlice, scale rlwe.Scale, lo
 		} else {
 			slots := 1 << logSlots
 
+			// The imaginary part only depends on the real parts: it must not
+			// inherit the previous content of values.
+			if values[0][1] == nil {
+				values[0][1] = new(big.Float)
+			}
+			values[0][1].SetInt64(0)
+
 			for i := 1; i < slots; i++ {
-				values[i][1].Sub(values[i][1], values[slots-i][0])
+				if values[i][1] == nil {
+					values[i][1] = new(big.Float)
+				}
+				values[i][1].Neg(values[slots-i][0])
 			}
 		}
 
@@ -983,8 +993,19 @@ func polyToComplexCRT(poly ring.Poly, bigintCoeffs []*big.Int, values FloatSlice
 		} else {
 			// [X]/(X^N+1) to [X+X^-1]/(X^N+1)
 			slots := 1 << logSlots
+
+			// The imaginary part only depends on the real parts: it must not
+			// inherit the previous content of values.
+			if values[0][1] == nil {
+				values[0][1] = new(big.Float)
+			}
+			values[0][1].SetInt64(0)
+
 			for i := 1; i < slots; i++ {
-				values[i][1].Sub(values[i][1], values[slots-i][0])
+				if values[i][1] == nil {
+					values[i][1] = new(big.Float)
+				}
+				values[i][1].Neg(values[slots-i][0])
 			}
 		}
 
